@@ -149,7 +149,8 @@ CHECKS = {
              "reported once) for N in {2,3} over three DAG shapes, cold and warm, and rejects two mutants. TLC simulation behaviours become release "
              "policies for REAL -n N builds whose worker replies are gated, so the schedule is chosen, not incidental: output and status are "
              "compared with the sequential build, each interface reply with the committed store, the cache left behind with warm parallel and "
-             "warm sequential runs vs cold; coordinator event streams are validated against Trace_Parallel.tla.",
+             "warm sequential runs vs cold; coordinator event streams are validated against Trace_Parallel.tla. The repository's multi-file check cases (500; quick 1/4) are built with -n 2 under a "
+             "free-running schedule and sequentially, expected outputs ignored, and a sequential warm run on the cache the parallel build left is compared with a cold run.",
         design_ref="DESIGN.md 5.C07",
         note="N <= 3 in the model (thorough real runs up to 8), 6-SCC graphs; batch composition follows the real size hints; cross-file message "
              "order not compared; in-process coordinator with test fixtures, real worker subprocesses",
